@@ -271,6 +271,8 @@ pub enum EventKind {
     CloseFd { fd: u32 },
     /// thread spawn (cloned from thread 0 with new tid)
     Spawn { tid: i32 },
+    /// every memory-map line with this name disappears (dlclose / munmap)
+    UnmapNamed { name: B },
 }
 
 #[derive(Serialize, Deserialize, Clone, Debug, PartialEq)]
